@@ -169,6 +169,16 @@ CHECKS = {
             "flanks, exact attribution sum, p-value threshold and order, suppression distance, and an unmodified input.",
             "Trusted: TLC; integer tracks (exact sums); p-values abstracted to threshold test and rank; raises are counted, not judged.",
             "DESIGN.md §5 C19"),
+    "C11": (["FimoOps", "FimoTable", "FimoTableMC", "FimoTable_Oracle"],
+            "step-shaped TLA+ model of the column-by-column score distribution (FimoTable.tla) model-checked with TLC for every "
+            "small integer score matrix (mass, support, tail laws, equality with brute-force enumeration); every matrix replayed "
+            "into fimo._pwm_to_mapping; exact tail counts for realistic PWMs from TLC in two-limb arithmetic",
+            "TLC proves on the complete small scope that the specified dynamic programme equals the enumeration of all 4^w "
+            "sequences and satisfies the tail laws; each matrix is run through the implementation and compared bin by bin. For "
+            "realistic PWMs up to width 30 TLC computes exact integer tail counts (asserting total mass and monotonicity) against "
+            "which 2**table[b]*4^w is compared.",
+            "Trusted: TLC; 1e-9 relative tolerance; this sandbox's numba/LLVM build only.",
+            "DESIGN.md §5 C11"),
 }
 
 ALL = ["C%02d" % i for i in range(1, 21)]
